@@ -44,7 +44,7 @@ where
     Some((b, size))
 }
 
-// @harness props=C05,C15 tier=quick panic=allow
+// @harness props=C05,C15,C08 tier=quick panic=allow
 // @encodes DynSizedStructure::<TagHeader>::cast::<CommandLineTag> CommandLineTag::dst_len BootLoaderNameTag::dst_len cast::<BootLoaderNameTag>
 // @bound declared size 8..=72 (all residues), tag contents symbolic, >= 8 neighbour bytes
 #[cfg_attr(kani, kani::proof)]
@@ -56,7 +56,7 @@ pub fn c05_string_tags() {
     }
 }
 
-// @harness props=C05,C15 tier=quick panic=allow
+// @harness props=C05,C15,C08 tier=quick panic=allow
 // @encodes cast::<ModuleTag> ModuleTag::dst_len
 // @bound declared size 8..=72
 #[cfg_attr(kani, kani::proof)]
@@ -64,7 +64,7 @@ pub fn c05_module() {
     let _ = dst_extent::<ModuleTag>(3, 16, 1);
 }
 
-// @harness props=C05,C15 tier=quick panic=allow
+// @harness props=C05,C15,C08 tier=quick panic=allow
 // @encodes cast::<MemoryMapTag> MemoryMapTag::dst_len MemoryMapTag::memory_areas
 // @bound declared size 8..=72 (0..=2 areas of 24 bytes)
 #[cfg_attr(kani, kani::proof)]
@@ -82,7 +82,7 @@ pub fn c05_mmap() {
     }
 }
 
-// @harness props=C05,C15 tier=quick panic=allow
+// @harness props=C05,C15,C08 tier=quick panic=allow
 // @encodes cast::<SmbiosTag> SmbiosTag::dst_len SmbiosTag::tables
 // @bound declared size 8..=72
 #[cfg_attr(kani, kani::proof)]
@@ -95,7 +95,7 @@ pub fn c05_smbios() {
     }
 }
 
-// @harness props=C05,C15 tier=quick panic=allow
+// @harness props=C05,C15,C08 tier=quick panic=allow
 // @encodes cast::<EFIMemoryMapTag> EFIMemoryMapTag::dst_len cast::<NetworkTag> NetworkTag::dst_len cast::<FramebufferTag> FramebufferTag::dst_len
 // @bound declared size 8..=72
 #[cfg_attr(kani, kani::proof)]
@@ -110,7 +110,7 @@ pub fn c05_efi_net_fb() {
     }
 }
 
-// @harness props=C05,C15 tier=quick panic=allow
+// @harness props=C05,C15,C08 tier=quick panic=allow
 // @encodes cast::<DynSizedStructure<TagHeader>> (generic payload) payload()
 // @bound declared size 8..=72
 #[cfg_attr(kani, kani::proof)]
@@ -121,7 +121,7 @@ pub fn c05_generic() {
     }
 }
 
-// @harness props=C05,C15,C09 tier=quick panic=allow
+// @harness props=C05,C15,C09,C08 tier=quick panic=allow
 // @encodes DynSizedStructure::<HeaderTagHeader>::cast::<InformationRequestHeaderTag> InformationRequestHeaderTag::dst_len requests()
 // @bound declared size 8..=72 (0..=16 requests); flags <= 1
 // @assume enumerated header-tag fields hold defined values
